@@ -153,3 +153,15 @@ func vNorm(v any) any {
 	}
 	return out
 }
+
+// vMapAs converts a map[string]V into a map[string]T by type assertion, for any V: drivers read unexported lookups through it so
+// that a refactor of the lookup's declared element type (concrete pointer vs interface) does not stop them from compiling.
+func vMapAs[T any, V any](m map[string]V) map[string]T {
+	out := make(map[string]T, len(m))
+	for k, v := range m {
+		if t, ok := any(v).(T); ok {
+			out[k] = t
+		}
+	}
+	return out
+}
